@@ -107,6 +107,8 @@ def gen_calls(gen, inst, rnd, n, temps=None):
             calls.append(("ac", ai, "set_fan_speed", (rnd.choice(FANS5),)))
         elif c < 0.55:
             t = rnd.choice(temps) if temps else round(rnd.uniform(10, 38) * 20) / 20
+            if not temps and rnd.random() < 0.25:
+                t = int(t)   # a whole number of degrees given as a Python int
             calls.append(("ac", ai, "set_target_temperature", (t,)))
         elif c < 0.62:
             calls.append(("ac", ai, "set_quick_timer_duration",
@@ -131,6 +133,8 @@ def gen_calls(gen, inst, rnd, n, temps=None):
                 calls.append(("zone", (ai, zi), "set_power", (rnd.choice(["OFF", "ON", "TURBO"]),)))
             elif d < 0.65:
                 t = rnd.choice(temps) if temps else round(rnd.uniform(10, 35) * 20) / 20
+                if not temps and rnd.random() < 0.25:
+                    t = int(t)
                 calls.append(("zone", (ai, zi), "set_target_temperature", (t,)))
             else:
                 calls.append(("zone", (ai, zi), "set_damper_percentage",
